@@ -3,6 +3,9 @@
    MANIFEST = {"C15": {"text":..., "note":..., "technique":..., "design_ref":...}, ...}
    ENGINE   = "one line describing the engine"
    LEVEL    = {"C15": "model_checking"} (optional; default model_checking)
+   ALSO     = ["C02", ...] (optional) properties PRIMARILY decided by another family to which this
+              family contributes extra coverage: run(tier) also returns a PropResult for each of them
+              and the driver merges it into the primary family's result
    run(tier) -> {pid: vlib.PropResult}          one shared run for all its properties
    replay(pid, path) -> exit code               re-run a recorded replay file
 Only the AST is read here (no import), so a broken family cannot break the others."""
@@ -11,7 +14,7 @@ import glob
 import os
 
 _HERE = os.path.dirname(os.path.abspath(__file__))
-FAMILIES, MANIFEST, ENGINES, LEVEL_OF = {}, {}, {}, {}
+FAMILIES, MANIFEST, ENGINES, LEVEL_OF, CONTRIB = {}, {}, {}, {}, {}
 for _p in sorted(glob.glob(os.path.join(_HERE, "fam_*.py"))):
     _name = os.path.basename(_p)[4:-3]
     try:
@@ -21,7 +24,7 @@ for _p in sorted(glob.glob(os.path.join(_HERE, "fam_*.py"))):
     _vals = {}
     for _n in _tree.body:
         if isinstance(_n, ast.Assign) and len(_n.targets) == 1 and isinstance(_n.targets[0], ast.Name) \
-                and _n.targets[0].id in ("PROPS", "MANIFEST", "ENGINE", "LEVEL", "TECH"):
+                and _n.targets[0].id in ("PROPS", "MANIFEST", "ENGINE", "LEVEL", "TECH", "ALSO"):
             try:
                 _vals[_n.targets[0].id] = ast.literal_eval(_n.value)
             except Exception:
@@ -29,6 +32,8 @@ for _p in sorted(glob.glob(os.path.join(_HERE, "fam_*.py"))):
     if "PROPS" not in _vals:
         continue
     FAMILIES[_name] = list(_vals["PROPS"])
+    for _pid in _vals.get("ALSO", []):
+        CONTRIB.setdefault(_pid, []).append(_name)
     ENGINES[_name] = _vals.get("ENGINE", "")
     for _pid in _vals["PROPS"]:
         MANIFEST[_pid] = dict(_vals.get("MANIFEST", {}).get(_pid, {}))
